@@ -6,7 +6,7 @@ OUTSIDE = ''
 
 def I(name, defs, steps, nthreads, bounds, **kw):
     d = {'name': name, 'src': 'future.cpp', 'engine': 'cbmc-seq', 'steps': steps, 'spin_loops': True, 'defs': defs,
-         'unwind': 3, 'unwindset': {}, 'nthreads': nthreads, 'timeout': 500, 'leak_check': True,
+         'unwind': 3, 'unwindset': {}, 'nthreads': nthreads, 'timeout': 400, 'leak_check': True,
          'shims': ['moodycamel'], 'seq_unroll': True, 'devirt': True, 'tiers': ['quick', 'thorough'], 'bounds': bounds}
     d.update(kw)
     return d
